@@ -961,6 +961,13 @@ func c14R3Updater(c *Ctx, u *c14Upd, getGen *ssa.Function) {
 // c14EvidenceV: in view V, the edges on which the Referrers API is known not
 // to be (known as) supported, and the complementary edges.
 func c14EvidenceV(V *c14View, supported int64) (notAvail, avail []Edge) {
+	notAvail, avail, _, _ = c14EvidenceVT(V, supported)
+	return
+}
+
+// c14EvidenceVT additionally returns the predecessor-restricted edges (the probe's
+// result tested inside a materialised `a && b` / `a || b`).
+func c14EvidenceVT(V *c14View, supported int64) (notAvail, avail []Edge, notAvailTri, availTri [][3]*ssa.BasicBlock) {
 	const setCap = "(*~/registry/remote.Repository).SetReferrersCapability"
 	probe := map[ssa.Value]bool{}
 	state := map[ssa.Value]bool{}
@@ -1017,6 +1024,9 @@ func c14EvidenceV(V *c14View, supported int64) (notAvail, avail []Edge) {
 	}
 	t, fl := V.BoolTests(probe)
 	avail, notAvail = append(avail, t...), append(notAvail, fl...)
+	pt, pf, ptT, pfT := V.PhiBoolTests(probe)
+	avail, notAvail = append(avail, pt...), append(notAvail, pf...)
+	availTri, notAvailTri = append(availTri, ptT...), append(notAvailTri, pfT...)
 	for _, f := range V.Funcs() {
 		for _, i := range Ifs(f) {
 			cond, te, fe := ifEdges(i)
@@ -1192,8 +1202,8 @@ func c14R3Callers(c *Ctx, us []*c14Upd) {
 					okG, why = false, FnName(E)+" reaches it through calls the analysis does not follow"
 					continue
 				}
-				notAvail, _ := c14EvidenceV(EV, supported)
-				if len(notAvail) == 0 || !EV.MustPass(call.(ssa.Instruction), newCut().Edges(notAvail...)) {
+				notAvail, _, notAvailTri, _ := c14EvidenceVT(EV, supported)
+				if len(notAvail)+len(notAvailTri) == 0 || !EV.MustPass(call.(ssa.Instruction), EV.CutPredEdge(newCut().Edges(notAvail...), notAvailTri...)) {
 					okG, why = false, "from "+FnName(E)+" a path reaches it without having seen the Referrers API as unsupported"
 				}
 			}
@@ -1239,8 +1249,8 @@ func c14R3Callers(c *Ctx, us []*c14Upd) {
 					ifelse(okDel, "after an error of the index update the manifest delete is still reachable", "when the referrers index update ends in an error — including the ignorable ReferrersError for the GC of the old index, reported after the new index (without this manifest) was pushed — the manifest itself is not deleted: it stays live, names the subject, and is no longer listed as its referrer (demo: checker/c14_demo_delete_skipped_after_index_gc_failure.txt)"))
 			}
 			// converse: with a subject and no API the update is not skipped
-			_, avail := c14EvidenceV(V, supported)
-			cu := newCut().Calls(ucalls).Edges(avail...)
+			_, avail, _, availTri := c14EvidenceVT(V, supported)
+			cu := V.CutPredEdge(newCut().Calls(ucalls).Edges(avail...), availTri...)
 			okC := len(subjNonNil) > 0
 			for _, e := range subjNonNil {
 				// a return that may carry a nil error (an error that is tested and then dropped is no excuse)
